@@ -39,6 +39,17 @@ func payload(r *rand.Rand, n, style int) hx.B {
 		r.Read(b)
 		pre := [][]byte{{0xEF, 0xBB, 0xBF}, {0xFF, 0xFE}, {0xFE, 0xFF}, {0x00}, {0xFF, 0x2F, 0x00}, {0x0D, 0x0A}, {0x7F}, {0xF0}, {0xF7}}[r.Intn(9)]
 		copy(b, pre)
+	case 6: // payloads that END with bytes other software strips or stops at (NUL, blanks, line ends, all zero)
+		r.Read(b)
+		suf := [][]byte{{0x00}, {0x00, 0x00, 0x00}, {0x20}, {0x0A}, {0x0D, 0x0A}, {0x09}, {0xFF}, {0x00, 0x41}}[r.Intn(8)]
+		if len(suf) <= len(b) {
+			copy(b[len(b)-len(suf):], suf)
+		}
+		if r.Intn(6) == 0 {
+			for i := range b {
+				b[i] = 0
+			}
+		}
 	default:
 		r.Read(b)
 	}
@@ -165,7 +176,7 @@ func cmdGen(args []string) {
 			if !thorough && n > 1000 && (ki+li+int(*seed))%3 != 0 && k != "seqdata" {
 				continue
 			}
-			put(Call{Ctor: k, Data: payload(r, n, (ki+li+int(*seed))%6)})
+			put(Call{Ctor: k, Data: payload(r, n, (ki+li+int(*seed))%7)})
 		}
 	}
 	nr := 400
@@ -178,7 +189,7 @@ func cmdGen(args []string) {
 		if k == "seqdata" && n == 0 {
 			n = 1
 		}
-		put(Call{Ctor: k, Data: payload(r, n, r.Intn(6))})
+		put(Call{Ctor: k, Data: payload(r, n, r.Intn(7))})
 	}
 
 	// --- channel, port: every value
@@ -285,7 +296,7 @@ func cmdGen(args []string) {
 		if i < len(boundaryLens) {
 			n = boundaryLens[i]
 		}
-		put(Call{Ctor: "undefined", A: []int{r.Intn(128)}, Data: payload(r, n, r.Intn(6))})
+		put(Call{Ctor: "undefined", A: []int{r.Intn(128)}, Data: payload(r, n, r.Intn(7))})
 	}
 	put(Call{Ctor: "eot"})
 	w.Close()
